@@ -91,6 +91,16 @@ def run_scenario(d, y, scenario, user_structure, simple, r, idx):
     else:  # pseudogene_only: two deletion haplotypes = pseudogene reads only
         reads = sim.simulate_reads(g, [(dele, list(g.alleles[dele].minors)[0])] * 2, depth=12) + sim.neutral_reads(cnr, 24)
     bam = os.path.join(d, f"s{idx}_{scenario}.bam")
+    if scenario != "normal" and r.random() < 0.5:
+        # history: a well-covered sample was genotyped from this very path earlier in the process; the file is then
+        # replaced - nothing remembered from the first run may stand in for the data of the second
+        good = sim.simulate_reads(g, copies, depth=12) + sim.neutral_reads(cnr, 24)
+        sim.write_bam(bam, good, length=sim.chrom_length_for(g))
+        try:
+            genotype(ypath, bam, None if user_structure else prof_bam, output_file=None, cn_region=None if user_structure else cnr,
+                     cn_solution=["1", "1"] if user_structure else None, genome="hg19")
+        except AldyException:
+            pass
     sim.write_bam(bam, reads, length=sim.chrom_length_for(g))
     cn_solution = ["1", "1"] if user_structure else None
     if user_structure and scenario == "pseudogene_only":
@@ -146,6 +156,33 @@ def run_scenario(d, y, scenario, user_structure, simple, r, idx):
             "sample_name": os.path.basename(bam).split(".")[0]}
 
 
+def shipped_deletion_case(d):
+    """CYP2D6 (the RefSeq record covers the gene only, the pseudogene CYP2D7 lies outside it): reads over the pseudogene
+    and the neutral region only = both gene copies deleted; must be called *5/*5, not rejected"""
+    import views
+    from aldy.common import GRange, AldyException
+    from aldy.genotype import genotype
+    g = views.shipped_gene("cyp2d6", "hg19")
+    cnr = GRange("22", 42547463, 42548249)
+    dele = g.deletion_allele()
+    first = sorted(g.alleles["1"].minors)[0]
+    L = 51304566
+    pbam = os.path.join(d, "ship_prof.bam")
+    sim.write_bam(pbam, sim.simulate_reads(g, [("1", first)] * 2, depth=10, read_len=100, name_prefix="p") + sim.neutral_reads(cnr, 20, read_len=100), chrom="22", length=L)
+    sbam = os.path.join(d, "ship_del.bam")
+    sim.write_bam(sbam, sim.simulate_reads(g, [(dele, sorted(g.alleles[dele].minors)[0])] * 2, depth=10, read_len=100, name_prefix="s") + sim.neutral_reads(cnr, 20, read_len=100),
+                  chrom="22", length=L)
+    try:
+        res = genotype("cyp2d6", sbam, pbam, output_file=None, cn_region=cnr, genome="hg19")
+        sols = list(res.values())[0]
+        structs = [dict(s_.major_solution.cn_solution.solution) for s_ in sols]
+        if not all(set(st) <= {dele} for st in structs):
+            return f"CYP2D6 sample with reads over the pseudogene only is called as {structs[:2]} instead of a whole-gene deletion"
+    except AldyException as e:
+        return f"CYP2D6 sample with reads over the pseudogene only (both gene copies deleted) is not called: {str(e)[:100]}"
+    return None
+
+
 def oracle(case, res):
     why = []
     sc, user = case["scenario"], case["user_structure"]
@@ -189,11 +226,14 @@ def tie(ctx):
             results.append(res)
             if "meas" in res:
                 reqs.append({"op": "guard", **res["meas"]})
+        ship_why = shipped_deletion_case(d)
     finally:
         shutil.rmtree(d, ignore_errors=True)
     outs = lib.driver_batch(reqs)
     fam = {"guard_table": {"cases": 0, "disagreements": []}}
     violations = []
+    if ship_why:
+        violations.append({"why": ship_why, "input": {"gene": "cyp2d6", "genome": "hg19", "sample": "two whole-gene deletions, simulated"}, "signature": "c19:pseudogene_only:shipped"})
     stats = collections.Counter()
     k = 0
     distinct = set()
